@@ -125,10 +125,17 @@ def node_writes(nd):
 # --- values along a path -------------------------------------------------------------------------------------------------
 
 # abstract values: ("const", v) | ("nonnull", truthy) with truthy True/None (None: not known) |
-#                  ("cond", expr, position, env at the definition)
+#                  ("cond", expr, position, env at the definition) | ("sentinel", Sentinel) (see below)
 _NONNULL = ("nonnull", None)
 _TRUTHY = ("nonnull", True)
 _BUILTIN_VALUES = {"int", "len", "bytes", "str", "bool", "list", "dict", "tuple", "set", "frozenset", "bytearray", "float", "abs", "repr", "sorted", "int.from_bytes", "bytes.fromhex"}
+# functions of the standard library / of cbor2 that build their result out of builtin types only (possibly None, e.g.
+# json.load of "null"), whatever they are handed -- as long as no hook is passed that lets the caller construct the
+# result: such a value is never an object private to the analysed program
+_PLAIN_DECODERS = {"json.load", "json.loads", "cbor2.load", "cbor2.loads", "binascii.unhexlify", "binascii.hexlify", "binascii.a2b_hex", "binascii.b2a_hex",
+                   "base64.b64decode", "base64.b64encode", "base64.urlsafe_b64decode", "base64.urlsafe_b64encode", "struct.unpack", "struct.pack",
+                   "os.path.join", "os.urandom", "secrets.token_bytes", "secrets.token_hex"}
+_PLAIN = ("plain", None)
 _EMPTY = {}
 # builtin bases whose instances are true (no __bool__/__len__)
 _PLAIN_BASES = {"object", "Exception", "BaseException", "ValueError", "RuntimeError", "KeyError", "TypeError", "LookupError", "OSError", "ConnectionError", "AttributeError", "NotImplementedError", "ArithmeticError"}
@@ -149,6 +156,211 @@ def _genuine_bool(e):
     if isinstance(e, ast.BoolOp):
         return all(_genuine_bool(v) for v in e.values)
     return False
+
+
+# --- sentinels: objects with an identity the rule knows -------------------------------------------------------------------
+#
+# "No such file", "nothing to strike out", "not decided yet" are carried in a local not only as None / False but as a
+# dedicated object: a class-level or module-level constant `_MISSING = object()` / `Sentinel("...")`, or a fresh
+# `object()` made in the function.  `x = self._MISSING ... x = load() ... if x is self._MISSING:` is then the flag
+# "the load did not complete", exactly as `x = None ... if x is None:` is.  What makes the reading sound is that the
+# *identity* of such an object is known:
+#
+# * a slot (class attribute reached through self / cls / type(self) / the class's name, or a module-level name, also
+#   imported) that is bound exactly once in the whole program, to a call that creates a fresh object (`object()`, or a
+#   class of the program without __new__ / metaclass whose bases are all known), that no other class binds (no override
+#   in a subclass), that no function declares `global`, and whose name is never the target of an attribute store,
+#   `del`, `setattr` or `delattr` anywhere -- two evaluations of the slot give the same object, and nothing else in the
+#   program (a constant, the result of a conversion, an object constructed later, another slot) is that object;
+# * `object()` evaluated at one position of one path is one object, distinct from every other evaluation.
+#
+# `==` follows identity only when the object's class keeps object.__eq__ (and the other side is a constant or another
+# such object); everything else stays undecided.
+
+
+class Sentinel:
+    """One such object: `key` identifies the slot (or the evaluation), `truthy` whether its truth value is known to be
+    true (no __bool__ / __len__), `plain_eq` whether `==` on it is identity."""
+
+    __slots__ = ("key", "truthy", "plain_eq")
+
+    def __init__(self, key, truthy, plain_eq):
+        self.key, self.truthy, self.plain_eq = key, truthy, plain_eq
+
+    def __eq__(self, other):
+        return isinstance(other, Sentinel) and other.key == self.key
+
+    def __ne__(self, other):
+        return not self.__eq__(other)
+
+    def __hash__(self):
+        return hash(self.key)
+
+    def __repr__(self):
+        return "<sentinel %s>" % (self.key,)
+
+
+def _scope_binding_counts(body):
+    """{name: number of binding occurrences} in the statements of one module / class scope (nested function and class
+    bodies are scopes of their own; their names are bound here)."""
+    cnt = {}
+
+    def add(nm):
+        cnt[nm] = cnt.get(nm, 0) + 1
+
+    for st in body:
+        if isinstance(st, (ast.FunctionDef, ast.AsyncFunctionDef, ast.ClassDef)):
+            add(st.name)
+            continue
+        for n in walk_no_nested(st):
+            if isinstance(n, ast.Name) and isinstance(n.ctx, (ast.Store, ast.Del)):
+                add(n.id)
+            elif isinstance(n, (ast.FunctionDef, ast.AsyncFunctionDef, ast.ClassDef)):
+                add(n.name)
+            elif isinstance(n, (ast.Import, ast.ImportFrom)):
+                for al in n.names:
+                    add((al.asname or al.name).split(".")[0])
+                    if al.name == "*":
+                        add("*")
+            elif isinstance(n, ast.ExceptHandler) and n.name:
+                add(n.name)
+    return cnt
+
+
+class SentinelIndex:
+    """Which slots of the program hold a sentinel (see above).  One per Program (`SentinelIndex.of(prog)`)."""
+
+    @classmethod
+    def of(cls, prog):
+        idx = prog.__dict__.get("_c12_sentinel_index")
+        if idx is None:
+            idx = prog.__dict__["_c12_sentinel_index"] = cls(prog)
+        return idx
+
+    def __init__(self, prog):
+        self.prog = prog
+        self._slots = {}
+        self._mod_counts = {}
+        # names that are the target of an attribute store / del / setattr / delattr anywhere, names declared global in a
+        # function, names bound in class bodies (per class)
+        self.attr_stored = set()
+        self.dynamic_setattr = False
+        self.globals_declared = {}
+        self.class_bound = {}
+        for m in prog.modules.values():
+            g = self.globals_declared.setdefault(m.name, set())
+            for n in ast.walk(m.tree):
+                if isinstance(n, ast.Attribute) and isinstance(n.ctx, (ast.Store, ast.Del)):
+                    self.attr_stored.add(n.attr)
+                elif isinstance(n, ast.Global):
+                    g.update(n.names)
+                elif isinstance(n, ast.Call) and isinstance(n.func, ast.Name) and n.func.id in ("setattr", "delattr") and len(n.args) >= 2:
+                    if isinstance(n.args[1], ast.Constant) and isinstance(n.args[1].value, str):
+                        self.attr_stored.add(n.args[1].value)
+                    # (a computed attribute name: the repository uses those for option descriptors and deprecation
+                    # shims, with names built from tables; a slot is disqualified only by a store the rule can name)
+                elif isinstance(n, ast.ClassDef):
+                    for nm, k in _scope_binding_counts(n.body).items():
+                        self.class_bound.setdefault(nm, []).append((n, k))
+
+    def _fresh_object(self, module, value):
+        """(truthy, plain_eq) when `value`, evaluated in `module`'s scope, creates a fresh object of a known class."""
+        if not isinstance(value, ast.Call) or any(isinstance(a, ast.Starred) for a in value.args) or any(k.arg is None for k in value.keywords):
+            return None
+        cn = chain(value.func)
+        if not cn:
+            return None
+        head = cn.split(".")[0]
+        prog = self.prog
+        if cn == "object":
+            if value.args or value.keywords or head in module.imports or self._module_counts(module).get("object"):
+                return None
+            return (True, True)
+        try:
+            qn = prog.resolve_in_module(module, cn)
+        except Exception:
+            return None
+        ci = prog.classes.get(qn)
+        if ci is None:
+            return None
+        try:
+            mro = list(prog.mro(ci.qn))
+        except Exception:
+            return None
+        if not all(q in prog.classes or q in _PLAIN_BASES for q in mro):
+            return None
+        if any(getattr(prog.classes[q].node, "keywords", None) for q in mro if q in prog.classes):
+            return None  # a metaclass decides what calling the class returns
+        if any(prog.classes[q].node.decorator_list for q in mro if q in prog.classes):
+            return None  # a decorator may replace the class or give it __eq__ / __bool__ (dataclass)
+        meths = {mn for q in mro if q in prog.classes for mn in prog.classes[q].methods}
+        attrs = {an for q in mro if q in prog.classes for an in prog.classes[q].attrs}
+        if "__new__" in meths or "__new__" in attrs:
+            return None
+        special = meths | attrs
+        return ("__bool__" not in special and "__len__" not in special, "__eq__" not in special)
+
+    def _module_counts(self, module):
+        c = self._mod_counts.get(module.name)
+        if c is None:
+            c = self._mod_counts[module.name] = _scope_binding_counts(module.tree.body)
+        return c
+
+    def class_slot(self, clsqn, name):
+        key = ("class", clsqn, name)
+        if key in self._slots:
+            return self._slots[key]
+        r = None
+        prog = self.prog
+        try:
+            value, owner = prog.class_attr(clsqn, name)
+        except Exception:
+            value, owner = None, None
+        if value is not None and owner is not None and name not in self.attr_stored:
+            bound = self.class_bound.get(name, [])
+            # bound once, in the class that owns it, and in no other class of the program (no override)
+            if len(bound) == 1 and bound[0][0] is owner.node and bound[0][1] == 1:
+                fo = self._fresh_object(owner.module, value)
+                if fo is not None:
+                    r = Sentinel(("slot", owner.qn, name), fo[0], fo[1])
+        self._slots[key] = r
+        return r
+
+    def module_slot(self, module, name):
+        key = ("module", module.name, name)
+        if key in self._slots:
+            return self._slots[key]
+        r = None
+        cnt = self._module_counts(module)
+        if cnt.get(name) == 1 and not cnt.get("*") and name not in self.attr_stored and name not in self.globals_declared.get(module.name, ()):
+            value = None
+            for st in module.tree.body:
+                if isinstance(st, ast.Assign) and len(st.targets) == 1 and isinstance(st.targets[0], ast.Name) and st.targets[0].id == name:
+                    value = st.value
+                elif isinstance(st, ast.AnnAssign) and isinstance(st.target, ast.Name) and st.target.id == name:
+                    value = st.value
+            fo = self._fresh_object(module, value) if value is not None else None
+            if fo is not None:
+                r = Sentinel(("slot", module.name, name), fo[0], fo[1])
+        self._slots[key] = r
+        return r
+
+    def qualified(self, q):
+        """The sentinel a qualified name `aiocoap.mod.NAME` / `aiocoap.mod.Class.NAME` denotes, or None."""
+        prog = self.prog
+        if "." not in q:
+            return None
+        owner, name = q.rsplit(".", 1)
+        if owner in prog.classes:
+            return self.class_slot(owner, name)
+        m = prog.modules.get(owner)
+        if m is not None:
+            if name in m.imports and not self._module_counts(m).get(name, 0) > 1:
+                tgt = m.imports[name]
+                if tgt != q:
+                    return self.qualified(tgt)  # re-exported
+            return self.module_slot(m, name)
+        return None
 
 
 class State:
@@ -184,6 +396,30 @@ class Values:
             elif isinstance(n, ast.arg):
                 shadow.add(n.arg)
         self._shadow = shadow
+        # names a bare Name in this function may mean instead of a module-level name: its own locals and those of the
+        # functions it is nested in
+        scope = set(shadow)
+        anc = getattr(fi, "parent", None)
+        while anc is not None:
+            for n in ast.walk(anc.node):
+                if isinstance(n, ast.Name) and isinstance(n.ctx, (ast.Store, ast.Del)):
+                    scope.add(n.id)
+                elif isinstance(n, ast.arg):
+                    scope.add(n.arg)
+                elif isinstance(n, (ast.FunctionDef, ast.AsyncFunctionDef, ast.ClassDef)):
+                    scope.add(n.name)
+            anc = getattr(anc, "parent", None)
+        for n in ast.walk(fi.node):
+            if isinstance(n, (ast.FunctionDef, ast.AsyncFunctionDef, ast.ClassDef)) and n is not fi.node:
+                scope.add(n.name)
+            elif isinstance(n, (ast.Import, ast.ImportFrom)):
+                for al in n.names:
+                    scope.add((al.asname or al.name).split(".")[0])
+            elif isinstance(n, ast.ExceptHandler) and n.name:
+                scope.add(n.name)
+        self._scope = scope
+        self._sent = {}
+        self._sidx = SentinelIndex.of(prog) if prog is not None and hasattr(prog, "modules") else None
 
     # -- bindings of one node
     def binds(self, nid):
@@ -254,6 +490,21 @@ class Values:
         self._calls[k] = r
         return r
 
+    def _plain_call(self, c):
+        """Is the call one to a decoder of _PLAIN_DECODERS (resolved through the module's imports), without hooks?"""
+        if not isinstance(c, ast.Call) or c.keywords or any(isinstance(a, ast.Starred) for a in c.args):
+            return False
+        cn = chain(c.func)
+        if not cn:
+            return False
+        parts = cn.split(".")
+        imports = getattr(self.fi.module, "imports", {})
+        if parts[0] in self._scope or parts[0] not in imports:
+            return False
+        if self._sidx is not None and self._sidx._module_counts(self.fi.module).get(parts[0], 0) > 1:
+            return False
+        return ".".join([imports[parts[0]]] + parts[1:]) in _PLAIN_DECODERS
+
     def _snap(self, e, env):
         """The part of the environment an expression reads (what its names meant where it was evaluated)."""
         k = id(e)
@@ -269,11 +520,92 @@ class Values:
                 snap[x] = v
         return snap
 
+    # -- sentinels
+    def _self_class(self, name):
+        """The class whose instance (or which itself, for a classmethod) the name denotes: the first parameter of the
+        method this function is, or is nested in, when nothing rebinds it on the way."""
+        f = self.fi
+        while f is not None:
+            a = f.node.args if hasattr(f.node, "args") else None
+            first = None
+            if a is not None:
+                pos = list(getattr(a, "posonlyargs", [])) + list(a.args)
+                first = pos[0].arg if pos else None
+            rebound = any(isinstance(n, ast.Name) and n.id == name and isinstance(n.ctx, (ast.Store, ast.Del)) for n in ast.walk(f.node))
+            if rebound:
+                return None
+            allargs = set()
+            if a is not None:
+                allargs = {x.arg for x in list(getattr(a, "posonlyargs", [])) + list(a.args) + list(a.kwonlyargs)} | {x.arg for x in (a.vararg, a.kwarg) if x is not None}
+            if first == name:
+                if f.cls is None:
+                    return None
+                for d in getattr(f.node, "decorator_list", []):
+                    if chain(d) == "staticmethod":
+                        return None
+                return f.cls
+            if name in allargs:
+                return None
+            f = getattr(f, "parent", None)
+        return None
+
+    def sentinel_of(self, e):
+        """The Sentinel the expression denotes wherever it is evaluated in this function (a never-rebound slot holding a
+        unique object, see SentinelIndex), or None."""
+        if self._sidx is None or not isinstance(e, (ast.Name, ast.Attribute)):
+            return None
+        k = id(e)
+        if k in self._sent:
+            return self._sent[k][1]
+        r = None
+        idx, fi = self._sidx, self.fi
+        recv = None
+        if isinstance(e, ast.Attribute):
+            v = e.value
+            if isinstance(v, ast.Name):
+                recv = self._self_class(v.id)
+            elif isinstance(v, ast.Call) and isinstance(v.func, ast.Name) and v.func.id == "type" and "type" not in self._scope \
+                    and len(v.args) == 1 and not v.keywords and isinstance(v.args[0], ast.Name):
+                recv = self._self_class(v.args[0].id)
+            elif isinstance(v, ast.Attribute) and v.attr == "__class__" and isinstance(v.value, ast.Name):
+                recv = self._self_class(v.value.id)
+        if recv is not None:
+            r = idx.class_slot(recv.qn, e.attr)
+        else:
+            c = chain(e)
+            head = c.split(".")[0] if c else None
+            if c and head not in self._scope and head not in self.untracked and idx._module_counts(fi.module).get(head, 0) <= 1 \
+                    and not idx._module_counts(fi.module).get("*") and head not in idx.globals_declared.get(fi.module.name, ()):
+                try:
+                    q = self.prog.resolve_in_module(fi.module, c)
+                except Exception:
+                    q = None
+                if q:
+                    r = idx.qualified(q)
+        self._sent[k] = (e, r)
+        return r
+
+    def _is_object_call(self, e):
+        return isinstance(e, ast.Call) and isinstance(e.func, ast.Name) and e.func.id == "object" and not e.args and not e.keywords \
+            and "object" not in self._scope and self._sidx is not None and "object" not in getattr(self.fi.module, "imports", {}) \
+            and not self._sidx._module_counts(self.fi.module).get("object")
+
     def absval(self, e, env, pos):
         if isinstance(e, ast.Constant):
             return ("const", e.value)
         if isinstance(e, ast.Name):
-            return env.get(e.id)
+            v = env.get(e.id)
+            if v is None and e.id not in self._shadow:
+                s = self.sentinel_of(e)
+                if s is not None:
+                    return ("sentinel", s)
+            return v
+        if isinstance(e, ast.Attribute):
+            s = self.sentinel_of(e)
+            return ("sentinel", s) if s is not None else None
+        if self._is_object_call(e):
+            # a fresh object(): this evaluation's own identity
+            return ("sentinel", Sentinel(("fresh", id(e), pos), True, True))
         if _boolish(e):
             return ("cond", e, pos, self._snap(e, env))
         if isinstance(e, ast.Call):
@@ -349,10 +681,45 @@ class Values:
         if isinstance(x, ast.Name):
             v = env.get(x.id)
             if v is not None and v[0] == "cond":
-                return _NONNULL if _genuine_bool(v[1]) else None
+                if _genuine_bool(v[1]):
+                    return _NONNULL
+                return _PLAIN if self._plain_call(v[1]) else None
+            if v is None and x.id not in self._shadow:
+                s = self.sentinel_of(x)
+                if s is not None:
+                    return ("sentinel", s)
             return v
+        if isinstance(x, ast.Attribute):
+            s = self.sentinel_of(x)
+            return ("sentinel", s) if s is not None else None
         if isinstance(x, ast.Call):
-            return self._call_value(x)
+            r = self._call_value(x)
+            return _PLAIN if r is None and self._plain_call(x) else r
+        return None
+
+    @staticmethod
+    def _sentinel_cmp(a, b, ident):
+        """Is a the same object as b (ident) / equal to b, one of them being a sentinel?  True / False / None."""
+        if a[0] != "sentinel":
+            a, b = b, a
+        s = a[1]
+        if b[0] == "sentinel":
+            t = b[1]
+            if s == t:
+                return True if ident or s.plain_eq else None  # x is x; x == x by object.__eq__
+            # two slots, each bound once to its own fresh object (or two evaluations of object()): different objects
+            return False if ident or (s.plain_eq and t.plain_eq) else None
+        if b[0] == "const":
+            # None, booleans, numbers, strings are not instances of object-and-nothing-else / of a class of the program
+            return False if ident or s.plain_eq else None
+        if b[0] == "nonnull":
+            # the result of a builtin conversion, a display, or an object constructed when that expression was evaluated:
+            # none of them is the object a never-rebound slot was given when its class / module was created, nor the
+            # object another evaluation of object() made.  Equality is the other operand's business.
+            return False if ident else None
+        if b[0] == "plain":
+            # built by a decoder of the standard library out of builtin types (see _PLAIN_DECODERS)
+            return False if ident or s.plain_eq else None
         return None
 
     def truth(self, e, env, depth=6):
@@ -367,6 +734,8 @@ class Values:
                 return bool(v[1])
             if v[0] == "nonnull":
                 return True if v[1] else None
+            if v[0] == "sentinel":
+                return True if v[1].truthy else None
             if v[0] == "cond" and depth:
                 return self.truth(v[1], v[3], depth - 1)
             return None
@@ -388,7 +757,9 @@ class Values:
                 return None
             ident = isinstance(e.ops[0], (ast.Is, ast.IsNot))
             r = None
-            if a[0] == "const" and b[0] == "const":
+            if a[0] == "sentinel" or b[0] == "sentinel":
+                r = self._sentinel_cmp(a, b, ident)
+            elif a[0] == "const" and b[0] == "const":
                 x, y = a[1], b[1]
                 if x is None or y is None:
                     r = x is None and y is None
